@@ -1,10 +1,10 @@
 package main
 
 import (
-	"path"
 	"fmt"
 	"math/rand"
 	"os"
+	"path"
 	"path/filepath"
 	"regexp"
 	"sort"
@@ -819,4 +819,244 @@ func runPJ(c *ctx, r *Report) error {
 		n = 30000
 	}
 	return pjStandard(c, r, n)
+}
+
+// pjRunTie: RUNS over several files of one scratch repository through ONE real Linter, file after file (the sequential
+// schedule), against AL.ProjRun.callsRun (op `callsrun`; AL.C10F: alone = in a run, a callee's own defect once per run): per file
+// the diagnostics of rule workflow-call and the expression diagnostics the look-ups add (callee unreadable / broken, typed
+// inputs). The files are generated callers, sometimes one of the well-formed callees itself (its interface is then registered
+// from its AST before or after the callers ask for it).
+func pjRunTie(c *ctx, r *Report, n int) error {
+	env, err := newPjEnv()
+	if err != nil {
+		return err
+	}
+	defer env.close()
+	rng := rand.New(rand.NewSource(c.seed*15485863 + 7))
+	var lines, impls []string
+	var cases []Case
+	var badFormat []bool
+	for i := 0; i < n; i++ {
+		type rf struct{ name, src string }
+		var files []rf
+		k := 2 + rng.Intn(2)
+		for j := 0; j < k; j++ {
+			if rng.Intn(4) == 0 {
+				callee := []rf{{"ok1.yml", pjCalleeOK1}, {"ok3.yml", pjCalleeOK3}, {"ok2.yml", pjCalleeOK2}}[rng.Intn(3)]
+				dup := false
+				for _, f := range files {
+					if f.name == callee.name {
+						dup = true
+					}
+				}
+				if !dup {
+					files = append(files, callee)
+					continue
+				}
+			}
+			src, _ := pjGenCaller(rng)
+			files = append(files, rf{fmt.Sprintf("run%d.yml", j), src})
+		}
+		if i < 4 {
+			// directed: two files referring to the same missing / unparseable callee (its defect once per run, at the first file)
+			bad := []string{"./.github/workflows/missing.yml", "./.github/workflows/unparse.yml"}[i%2]
+			a := "on: push\njobs:\n  a:\n    uses: " + bad + "\n"
+			b := "on: push\njobs:\n  first:\n    needs: [second]\n    runs-on: ubuntu-latest\n    steps:\n      - run: echo ${{ needs.second.outputs.x }}\n  second:\n    uses: " + bad + "\n"
+			files = []rf{{"run0.yml", a}, {"run1.yml", b}}
+			if i >= 2 {
+				files = []rf{{"run0.yml", b}, {"run1.yml", a}}
+			}
+		}
+		ok := true
+		var roots []*yaml.Node
+		var parts []string
+		for _, f := range files {
+			var root yaml.Node
+			if err := yaml.Unmarshal([]byte(f.src), &root); err != nil {
+				ok = false
+				break
+			}
+			if !strings.HasPrefix(f.name, "ok") {
+				os.WriteFile(filepath.Join(env.wf, f.name), []byte(f.src), 0o644)
+			}
+			nums := map[string]bool{}
+			node := nodeSexp(&root, nums)
+			exNumbers(&root, nums)
+			parts = append(parts, hx("./.github/workflows/"+f.name)+" "+numsSexp(nums)+" "+node)
+			rc := root
+			roots = append(roots, &rc)
+		}
+		if !ok {
+			continue
+		}
+		// what is on disk behind every spec of every file (asked of fresh caches)
+		table := map[string]string{}
+		for _, root := range roots {
+			es := env.envSexp(root) // (1,self,table)
+			if i1 := strings.Index(es, ",("); i1 >= 0 && strings.HasSuffix(es, "))") {
+				inner := es[i1+2 : len(es)-2]
+				depth, start := 0, 0
+				for p := 0; p < len(inner); p++ {
+					switch inner[p] {
+					case '(':
+						if depth == 0 {
+							start = p
+						}
+						depth++
+					case ')':
+						depth--
+						if depth == 0 {
+							item := inner[start : p+1]
+							table[item] = item
+						}
+					}
+				}
+			}
+		}
+		var items []string
+		for it := range table {
+			items = append(items, it)
+		}
+		sort.Strings(items)
+		tbl := "E"
+		if len(items) > 0 {
+			tbl = "(" + strings.Join(items, ",") + ")"
+		}
+		l, err := actionlint.NewLinter(nopWriter{}, &actionlint.LinterOptions{Shellcheck: "", Pyflakes: ""})
+		if err != nil {
+			return err
+		}
+		var perFile []string
+		crashed := false
+		// ONE LintFiles call: only then the files share the caches (LintFile makes caches of its own). The files are linted
+		// concurrently, so WHICH file reports a callee's own defect is up to the schedule: the comparison below is on the
+		// per-file diagnostics without the callees' own defects (AL.C10F.others_in_run_eq_alone) and on the number of defect
+		// reports in the whole run (AL.C10F.callee_defect_at_most_once_per_run / callee_defect_exactly_once)
+		var paths []string
+		for _, f := range files {
+			paths = append(paths, filepath.Join(env.wf, f.name))
+		}
+		var all []*actionlint.Error
+		var lerr error
+		pmsg, to := guarded(pwTimeout, func() { all, lerr = l.LintFiles(paths, nil) })
+		if pmsg != "" || to || lerr != nil {
+			r.Crashes = append(r.Crashes, Case{Op: "callsrun", Input: map[string]string{"files": strings.Join(paths, ",")}, Note: fmt.Sprint(pmsg, lerr)})
+			crashed = true
+		}
+		for _, f := range files {
+			if crashed {
+				break
+			}
+			var w, ex []string
+			for _, er := range all {
+				if filepath.Base(er.Filepath) != f.name {
+					continue
+				}
+				switch er.Kind {
+				case "workflow-call":
+					// the format check of `uses:` belongs to the AST-only half of the rule (AL.Rules.ruleWorkflowCall, tied by lintwf)
+					if cstr, ok := pjCanonWC(er); ok {
+						w = append(w, cstr)
+					} else if cstr := lwCanonErr(er); !strings.Contains(cstr, ":call-format:") {
+						w = append(w, cstr)
+					}
+				case "expression":
+					// the typed check of supplied inputs is the expression rule's own (AL.RuleExpr.typedInput, tied by exprwfp)
+					if cstr, ok := pjClassifyExpr(er.Message); ok && (strings.HasPrefix(cstr, "callee-unreadable(") || strings.HasPrefix(cstr, "callee-broken(")) {
+						ex = append(ex, cstr)
+					}
+				}
+			}
+			sort.Strings(ex)
+			perFile = append(perFile, "W"+strings.Join(w, ";")+"#E"+strings.Join(ex, ";"))
+		}
+		for _, f := range files {
+			if !strings.HasPrefix(f.name, "ok") {
+				os.Remove(filepath.Join(env.wf, f.name))
+			}
+		}
+		if crashed {
+			continue
+		}
+		r.Evaluations++
+		var names []string
+		for _, f := range files {
+			names = append(names, f.name)
+		}
+		r.hist(fmt.Sprintf("callsrun:files=%d", len(files)))
+		bf := false
+		for _, f := range files {
+			for _, m := range regexp.MustCompile(`(?m)^\s*uses:\s*(\S+)\s*$`).FindAllStringSubmatch(f.src, -1) {
+				u := strings.Trim(m[1], `'"`)
+				if strings.HasPrefix(u, "./") && !strings.HasPrefix(u, "./act") {
+					rest := u[2:]
+					if rest == "" || strings.Index(rest, "@") > 0 {
+						bf = true
+					}
+				}
+			}
+		}
+		badFormat = append(badFormat, bf)
+		lines = append(lines, "callsrun (1,N,"+tbl+") "+strings.Join(parts, " "))
+		impls = append(impls, strings.Join(perFile, "|"))
+		in := map[string]string{"files": strings.Join(names, ",")}
+		for _, f := range files {
+			in[f.name] = f.src
+		}
+		cases = append(cases, Case{Op: "callsrun", Input: in})
+	}
+	out, err := runModel(c.driver, lines)
+	if err != nil {
+		return err
+	}
+	// a run's answer without the callees' own defects, and the number of defect reports in it
+	strip := func(ans string) (string, int) {
+		n := 0
+		var files []string
+		for _, f := range strings.Split(ans, "|") {
+			we := strings.SplitN(strings.TrimPrefix(f, "W"), "#E", 2)
+			if len(we) != 2 {
+				files = append(files, f)
+				continue
+			}
+			keep := func(items string) string {
+				var out []string
+				for _, it := range strings.Split(items, ";") {
+					if it == "" {
+						continue
+					}
+					if strings.Contains(it, ":callee-unreadable:") || strings.Contains(it, ":callee-broken:") || strings.HasPrefix(it, "callee-unreadable(") || strings.HasPrefix(it, "callee-broken(") {
+						n++
+						continue
+					}
+					out = append(out, it)
+				}
+				return strings.Join(out, ";")
+			}
+			ws := strings.Split(keep(we[0]), ";")
+			sort.Strings(ws) // Linter.check sorts by position, the model lists in rule order: compared as multisets here (the order is lintwfp's business)
+			files = append(files, "W"+strings.Join(ws, ";")+"#E"+keep(we[1]))
+		}
+		return strings.Join(files, "|"), n
+	}
+	for i, m := range out {
+		si, ni := strip(impls[i])
+		sm, nm := strip(m)
+		if badFormat[i] {
+			// a `uses: ./…` that is not in the local call format is remembered as "nothing there" by rule workflow-call without a
+			// report, and reported as unreadable when the expression rule asks first: the number of reports depends on the
+			// order in which the files reach the cache (AL.C10F.bad_format_spec_counterexample), which LintFiles does not fix
+			r.hist("callsrun:bad-format-spec(defect count not compared)")
+			nm = ni
+		}
+		if si != sm || ni != nm {
+			cs := cases[i]
+			cs.Impl, cs.Model = fmt.Sprintf("%s (defect reports in the run: %d)", impls[i], ni), fmt.Sprintf("%s (defect reports in the run: %d)", m, nm)
+			r.disagree(cs)
+		} else {
+			r.nontrivial("callsrun:" + impls[i] + lines[i][:40])
+			r.hist(fmt.Sprintf("callsrun:defect-reports=%d", ni))
+		}
+	}
+	return nil
 }
